@@ -151,9 +151,12 @@ def r4(db, rep):
         c = g.idx.get(b.get("cond")) if b.get("cond") is not None else None
         if c is not None and len(b["s"]) == 2:
             for op, l, r in cond.facts_of(f, c, True):
-                if op == ">" and r is not None and "seq_compare" in facts.expr_str(l) and "last()" in facts.expr_str(l) and \
-                        "ack_number_" in facts.expr_str(l) and facts.cval(r) == 0:
-                    skip.add((b["id"], 1))     # block ends at/below the ACK: nothing to record
+                if op in (">", "<") and r is not None and facts.cval(r) == 0:
+                    l0 = strip(l)
+                    if l0["k"] == "CallExpr" and l0.get("cname") == "seq_compare" and len(l0["c"]) == 3:
+                        a1, a2 = facts.expr_str(l0["c"][1]), facts.expr_str(l0["c"][2])
+                        if (op == ">" and "last()" in a1 and "ack_number_" in a2) or (op == "<" and "ack_number_" in a1 and "last()" in a2):
+                            skip.add((b["id"], 1))     # block ends at/below the ACK: nothing to record
     w = g.reaches_exit_avoiding(D, [L], normal_only=True, skip_edges=skip)
     if w is None and skip:
         rep.ok("R4-no-skip", "process_sack", facts.loc(f, decl[0]), "every path from a block's range either enters the piece loop or the block ends at/below the ACK")
